@@ -276,7 +276,7 @@ func runCurve(c *mon.Ctx, name string, newInst func() *pokmpc.Inst) {
 var sem chan struct{}
 
 func main() {
-	c := mon.Init("C17A")
+	c := mon.Init("C17")
 	sem = make(chan struct{}, *flagPar)
 	var wg sync.WaitGroup
 	for _, cv := range pokmpc.All {
